@@ -487,6 +487,21 @@ fn an(re: &Regex, s: &str) -> String {
 }
 
 fn scenarios() -> Vec<Scenario> {
+    let mut v = base_scenarios();
+    let mirrored: Vec<Scenario> = base_scenarios()
+        .into_iter()
+        .map(|mut s| {
+            s.bodies.reverse();
+            s.describe.reverse();
+            s.name = Box::leak(format!("{} [thread order reversed]", s.name).into_boxed_str());
+            s
+        })
+        .collect();
+    v.extend(mirrored);
+    v
+}
+
+fn base_scenarios() -> Vec<Scenario> {
     vec![
         Scenario {
             name: "shared (?:ab|c)*d: is_match+replace_all || tokenize",
@@ -632,8 +647,8 @@ fn explore(prefix: Vec<usize>, bound: usize, exact: bool, shared: &Arc<Shared>, 
 
 fn sched_bounds(tier: Tier) -> Vec<usize> {
     match tier {
-        Tier::Quick => vec![0, 1],
-        Tier::Thorough => vec![0, 1, 2],
+        Tier::Quick => vec![0, 1, 2],
+        Tier::Thorough => vec![0, 1, 2, 3],
     }
 }
 
